@@ -1,7 +1,7 @@
 """C03 — block hash commits to the header, header root to the tree path (DESIGN.md §5 C03)."""
 from . import terms as T
 from . import pat as P
-from . import circ, leaf, postable
+from . import circ, leaf, postable, lc
 from .pat import V, K, Cb
 
 HEADER_ORDER = [("all", "block_header.header.parent_hash"), ("one", "block_header.header.block_number"),
@@ -79,6 +79,12 @@ def check_view(ck, view, tag=""):
     g, walk, iw, ir, nest = mr
     e = g["e"]
     fr = e.frame
+    # the walk is built in the level loop, which does not enclose the root comparison: terms are made loop-canonical against the
+    # frame's loops (rules/lc.py), so `for level in 0..MAX_DEPTH { siblings[level] }` and a zip/enumerate form read the same
+    fnest = lc.Nest(loops=[], fallback=lc.frame_nest(fr))
+
+    def Cn(t):
+        return P.norm(fnest.canon(P.norm(t)))
     ck.require(leaf.all_limbs(nest, iw, ir), "TERM", tag + "merkle-root/all-limbs", "all four limbs, same index", e.loc)
     ck.require(P.norm(g["G"]) in (flag, role_flag), "PROV", tag + "merkle-root/flag", "gated by the dummy flag only", e.loc)
     circ.require_uncond(ck, e, "UNCOND", tag + "merkle-root/uncond", "the merkle-root binding")
@@ -109,7 +115,7 @@ def check_view(ck, view, tag=""):
     keep_ok = kb is not None and keep[2] == I and isinstance(kb, tuple) and kb[0] in ("rec", "phi") and kb[1].startswith(key.rsplit(".", 1)[0])
     ck.require(keep_ok, "TERM", tag + "walk/step-keep", "inactive levels keep the running hash limb i", e.loc, T.show(keep)[:200])
     # active flag
-    act = P.norm(b["active"])
+    act = Cn(b["active"])
     an = P.call_name(act)
     depth = view.role("zk_merkle_proof.depth")
     max_depth = ck.prog.const_value("zk_merkle::MAX_DEPTH")
@@ -119,11 +125,9 @@ def check_view(ck, view, tag=""):
     if an and an.endswith("gadgets::is_const_less_than"):
         args = act[4]
         level, dterm, nl = P.norm(args[1]), P.norm(args[2]), P.norm(args[3])
-        r = circ.range_expr(level[1]) if (isinstance(level, tuple) and level[0] == "elem") else None
         n_log = P.const_of(nl)
         # the level loop covers 0..MAX_DEPTH (by value: the leaf view carries no constant names)
-        lvl_ok = (r is not None and P.const_of(r[0]) == 0 and P.const_of(r[1]) == max_depth
-                  and dterm == depth and n_log is not None and (1 << n_log) > max_depth)
+        lvl_ok = (lc.is_var(level, 0, max_depth) and dterm == depth and n_log is not None and (1 << n_log) > max_depth)
     ck.require(lvl_ok, "TERM", tag + "walk/active-level", "is_active_level = is_const_less_than(level, depth, n_log) with level in 0..MAX_DEPTH(=%d) and 2^n_log > MAX_DEPTH" % max_depth,
                e.loc, T.show(act)[:300])
     # depth bound
@@ -158,10 +162,10 @@ def check_view(ck, view, tag=""):
                       cs[0][2].loc if cs else e.loc, [(k, T.show(t)[:200]) for k, t, _ in cs]):
         return
     # position range check
-    positions = view.role("zk_merkle_proof.positions")
-    siblings = view.role("zk_merkle_proof.siblings")
+    positions = Cn(view.role("zk_merkle_proof.positions"))
+    siblings = Cn(view.role("zk_merkle_proof.siblings"))
     pos_term = ("idx", positions, level)
-    rc = [x for x in view.effects if x.name == "cb.range_check" and P.norm(circ.cb_operands(x)[0]) == pos_term]
+    rc = [x for x in view.effects if x.name == "cb.range_check" and Cn(circ.cb_operands(x)[0]) == pos_term]
     if ck.require(len(rc) >= 1, "TERM", tag + "position/range", "range_check(positions[level], k) present for the level loop variable", rc[0].loc if rc else e.loc):
         kbits = min(P.const_of(circ.cb_operands(x)[1]) for x in rc)
         ck.require(kbits is not None and kbits <= 2, "TERM", tag + "position/range-bits", "position is range-checked to %s bits (<= 2: position in 0..3)" % kbits, rc[0].loc)
@@ -178,7 +182,7 @@ def check_view(ck, view, tag=""):
         row = []
         for slot in range(4):
             c = fr.index(children, ("c", slot, None))
-            x = fr.index(fr.field(c, "elements"), E)
+            x = Cn(fr.index(fr.field(c, "elements"), E))
             # current-hash atom: the running value's limb E
             for s in T.walk(x):
                 if s and s[0] == "idx" and s[2] == E and isinstance(strip_el(s[1]), tuple) and strip_el(s[1])[0] in ("phi", "rec") and strip_el(s[1])[1].startswith(key.rsplit(".", 1)[0]):
